@@ -19,6 +19,26 @@ def gen_real(seed, tier, out):
         subprocess.run([str(brv.BIN / "node"), "gen", str(seed), "6" if tier == "quick" else "60", tier, "real"], stdout=f, check=True)
 
 
+def gen_stall(seed, tier, out):
+    import random
+    rnd = random.Random(seed * 613 + 11)
+    n = 3 if tier == "quick" else 40
+    with open(out, "w") as f:
+        for _ in range(n):
+            k = rnd.randint(2, 5)
+            f.write(f"init nodes={k} tx=1\n")
+            ready = []
+            for i in range(k):
+                f.write(f"hs i={i}\n")
+                if i == 0 or rnd.random() < 0.8:
+                    f.write(f"verify i={i} ok=1\n")
+                    ready.append(i)
+            t = rnd.choice(ready)
+            f.write(f"stallstop i={t} n={rnd.randint(1050, 1400)}\n")
+            for _ in range(rnd.randint(1, 3)):
+                f.write(rnd.choice(["sendtx", "reqheaders", "ping"]) + "\n")
+
+
 def gen_mgr(seed, tier, out):
     n = 110 if tier == "quick" else 2000
     with open(out, "w") as f:
@@ -39,6 +59,8 @@ SPEC = Spec(
         Stream("node", "node", "drv_node", gen, monitor=_monitor, nontrivial=mon.nontrivial, timeout=1500),
         Stream("realrepo", "node", "drv_node", gen_real, monitor=_monitor, nontrivial=mon.nontrivial, compare=False),
         Stream("mgr", "mgr", "drv_mgr", gen_mgr, monitor=mon_mgr.monitor_c15, nontrivial=mon_mgr.nontrivial, timeout=900),
+        Stream("mgrstall", "mgr", "drv_mgr", gen_stall, monitor=mon_mgr.monitor_c15, nontrivial=mon_mgr.nontrivial, compare=False, timeout=900,
+               describe="a peer that stops reading and floods pings until the node's outgoing queue (1000) is full; NodeManager.SendTx parks on it; the node is stopped; the others keep being served (monitor only: queue occupancy is not modelled)"),
     ],
     rule="seeded hostile scripts run in an ISOLATED WORKER PROCESS (RLIMIT_AS 3.5 GiB; exit status + first panic line reported), delivered "
          "before the handshake / during verification / when ready: bad checksum, wrong magic, declared length larger or smaller than the data, "
